@@ -49,3 +49,106 @@ Proof.
   eexists. eexists. eexists. split; [reflexivity|]. split; [reflexivity|].
   split; [vm_compute; reflexivity|]. split; [vm_compute; reflexivity|]. vm_compute. reflexivity.
 Qed.
+
+(* ---------------------------------------------------------------------------------------------------------------- *)
+(* EVERY tree a first TaborProgram(...) can leave behind.  The real code changes the Loop in place: the root is
+   encapsulated (root_of) unless the tuple-length checks fail first; flatten_and_balance runs to its end (it never
+   raises); prepare works iteration by iteration on the root's children and raises only at the START of an iteration,
+   before it changed anything in that iteration (or returns); the asserts, the parsers and the sampling that follow
+   do not touch the tree.  So the tree left behind is the program itself, its encapsulated root, or the root over
+   `rev before ++ after` of prepare's state after some number k of completed iterations. *)
+
+Fixpoint prep_state (k : nat) (mn mx : Z) (before after : list loop) : list loop * list loop :=
+  match k with
+  | O => (before, after)
+  | S k' =>
+      match prep_step mn mx before after with
+      | PNext b a => prep_state k' mn mx b a
+      | _ => (before, after)
+      end
+  end.
+
+Inductive left_behind (prog : loop) : loop -> Prop :=
+| LB_self : left_behind prog prog
+| LB_root : left_behind prog (root_of prog)
+| LB_prep f1 ch1 k mn mx b a :
+    depth (root_of prog) >? 1 = true -> l_rep (root_of prog) =? 1 = true ->
+    fab f1 2 [] (l_ch (root_of prog)) = Ok ch1 ->
+    prep_state k mn mx [] ch1 = (b, a) ->
+    left_behind prog (set_ch (root_of prog) (rev b ++ a)).
+
+Lemma prep_state_ok : forall k mn mx before after b a,
+  forallb tgood before = true -> forallb tgood after = true ->
+  prep_state k mn mx before after = (b, a) ->
+  forallb tgood b = true /\ forallb tgood a = true /\ tables_flat b a = tables_flat before after.
+Proof.
+  induction k as [|k IH]; intros mn mx before after b a Gb Ga H; cbn [prep_state] in H.
+  - injection H as <- <-. auto.
+  - destruct (prep_step mn mx before after) as [b' a'|r|e] eqn:E; try (injection H as <- <-; auto).
+    destruct (prep_step_ok _ _ _ _ _ _ Gb Ga E) as (G1 & G2 & F). rewrite <- F. eapply IH; eauto.
+Qed.
+
+Theorem left_behind_ok prog prog' : good prog = true -> left_behind prog prog' ->
+  good prog' = true /\ flatten prog' = flatten prog.
+Proof.
+  intros G H. destruct H as [| |f1 ch1 k mn mx b a Hd Hr Hf Hs]; [auto|now apply root_of_ok|].
+  destruct (root_of_ok _ G) as [G1 F1].
+  assert (Hne : l_ch (root_of prog) <> []) by (apply depth_pos_nonleaf; lia).
+  assert (T : forallb tgood (rev b ++ a) = true /\ flat_list (rev b ++ a) = flat_list (l_ch (root_of prog))).
+  { destruct (root_of prog) as [r m w ch] eqn:E. cbn [l_ch] in *.
+    pose proof (good_inv _ _ _ _ G1) as (_ & _ & Hch).
+    pose proof (fab_ok f1 2 [] ch ch1 eq_refl Hch Hf) as [Gc1 Fc1]. cbn in Fc1.
+    pose proof (fab_nonleaf f1 2 [] ch ch1 ltac:(lia) eq_refl Hf) as Nc1.
+    assert (Tc1 : forallb tgood ch1 = true).
+    { apply forallb_forall. intros t Ht. apply good_nonleaf_tgood.
+      - eapply forallb_forall in Gc1; eauto.
+      - eapply forallb_forall in Nc1; eauto. }
+    destruct (prep_state_ok k mn mx [] ch1 b a eq_refl Tc1 Hs) as (Tb & Ta & F).
+    split; [now rewrite forallb_app, forallb_rev', Tb, Ta|].
+    rewrite flat_list_app. unfold tables_flat in F. cbn in F. now rewrite F, Fc1. }
+  destruct T as [T F]. split; [now apply good_restructured|].
+  rewrite <- F1. destruct (root_of prog) as [r m w ch] eqn:E. cbn [l_ch l_rep set_ch] in *.
+  pose proof (good_inv _ _ _ _ G1) as (_ & Hw & _). rewrite (Hw Hne). now rewrite !tflatten, F.
+Qed.
+
+(* whatever the first compilation did, the second one (any configuration), if it accepts, plays the original program *)
+Theorem recompile_plays_any c' tbl prog prog' o :
+  good prog = true ->
+  (forall w1 w2 d1 d2, nth_error tbl w1 = Some d1 -> nth_error tbl w2 = Some d2 -> wf_cls d1 = wf_cls d2 -> d1 = d2) ->
+  (forall w d, nth_error tbl w = Some d -> (wf_len d == inject_Z (wf_n d))%Q) ->
+  left_behind prog prog' ->
+  compile c' tbl prog' = Ok o ->
+  exists s, spec c' tbl prog = Some s /\ expand o = Some s.
+Proof.
+  intros G H1 H2 HL Hc. destruct (left_behind_ok prog prog' G HL) as [G' F].
+  destruct (compile_plays c' tbl prog' o G' H1 H2 Hc) as (s & Hs & He).
+  exists s. split; [|exact He]. rewrite <- Hs. symmetry. now apply spec_flatten.
+Qed.
+
+(* the model of the in-place effect (Model.tree_after_with, compared with the tree read back from the real Loop object
+   in the `compiled_twice` cases) only ever produces `left_behind` trees *)
+Lemma prep_last_state : forall k mn mx before after,
+  prep_last k mn mx before after = rev (fst (prep_state k mn mx before after)) ++ snd (prep_state k mn mx before after).
+Proof.
+  induction k as [|k IH]; intros mn mx before after; cbn [prep_last prep_state]; [reflexivity|].
+  destruct (prep_step mn mx before after); [apply IH|reflexivity|reflexivity].
+Qed.
+
+Theorem tree_after_left_behind ff pf c prog : left_behind prog (tree_after_with ff pf c prog).
+Proof.
+  unfold tree_after_with. fold (root_of prog).
+  destruct (negb (c_nchan c =? c_cpp c)); [constructor|].
+  destruct (negb (c_nmark c =? c_cpp c)); [constructor|].
+  destruct (negb (c_nchan c =? 2)); [constructor|].
+  destruct (negb (match c_mode c with Some m => m | None => depth (root_of prog) >? 1 end)); [constructor|].
+  destruct (depth (root_of prog) >? 1) eqn:Hd; cbn [negb]; [|constructor].
+  destruct (l_rep (root_of prog) =? 1) eqn:Hr; cbn [negb]; [|constructor].
+  destruct (fab ff 2 [] (l_ch (root_of prog))) as [ch1|e] eqn:Ef; [|constructor].
+  rewrite prep_last_state.
+  destruct (prep_state pf (c_min c) (c_max c) [] ch1) as [b a] eqn:Es. cbn [fst snd].
+  eapply LB_prep; eauto.
+Qed.
+
+Corollary tree_after_ok c prog : good prog = true ->
+  good (tree_after c prog) = true /\ flatten (tree_after c prog) = flatten prog.
+Proof. intros G. apply left_behind_ok; [exact G|apply tree_after_left_behind]. Qed.
